@@ -33,7 +33,7 @@ CLAIMED = {
             "The empty text is exempt from the by-name / lowest-ID assertions because ion-go deliberately does not index it (by-ID results for it are still checked). Trusts the harness's ID-space model, rapid, Go.",
             "DESIGN.md section 5, C09; section 9.3"),
     "C12": (PBT + "; reference writer-protocol automaton + independent strict decoders as oracle; exhaustive enumeration of short call sequences",
-            "Exploration with an exhaustive sub-grid: every call sequence up to length 5 (6 in thorough) over a 9-call alphabet x 4 writer configurations (~265 000) plus 32 000 generated sequences of 1-40 calls over the whole Writer interface with per-case legality bias (75 / 93 / 100 %); checks no panic, error stickiness, Finish refused inside a container, determinism, and for nil-finished sequences that the stream decodes (independent decoder) to exactly the values of the succeeded calls.",
+            "Exploration with an exhaustive sub-grid: every call sequence up to length 5 (6 in thorough) over a 9-call alphabet x 6 writer configurations (incl. binary and text writers with shared tables; ~400 000) plus 32 000 generated sequences of 1-40 calls over the whole Writer interface with per-case legality bias (75 / 93 / 100 %); checks no panic, error stickiness, Finish refused inside a container, determinism, and for nil-finished sequences that the stream decodes (independent decoder) to exactly the values of the succeeded calls.",
             "Sequences that abandon a pending field name or annotation (End*/Finish straight after FieldName/Annotation) have undocumented semantics: they are checked for panic / stickiness / determinism but not for stream content, and are counted under discarded.ambiguous_sequence. Trusts the harness automaton and decoders.",
             "DESIGN.md section 5, C12; section 10.2"),
     "C13": (PBT + "; exhaustive integer-boundary, accessor-matrix and magnitude grids against a big-integer reference model and the independent binary decoder",
